@@ -1116,7 +1116,9 @@ class Interp:
             # struct or struct-like enum variant
             order = self.struct_field_order(segs)
             if order is None:
-                raise Inconclusive("field order of struct %s" % head)
+                # a type that is not declared in the source (macro-generated, e.g. serde's __SerializeWith):
+                # rustc prints aggregate operands in field-declaration order
+                order = list(names)
             fields = [MOVED] * len(order)
             for n, v in zip(names, vals):
                 if n not in order:
@@ -1417,12 +1419,34 @@ class Interp:
             return (v.rust_type,)
         return None
 
+    def _method_by_receiver_type(self, tyname, method, nargs):
+        cache = getattr(self, "_recv_cache", None)
+        if cache is None:
+            cache = self._recv_cache = {}
+        k = (tyname, method, nargs)
+        if k not in cache:
+            hits = []
+            for f in list(self.prog.funcs.values()) + [x for fs in self.prog.dups.values() for x in fs]:
+                if not f.params or len(f.params) != nargs or not f.name.endswith("::" + method):
+                    continue
+                t0 = f.params[0][1].strip().lstrip("&").replace("mut ", "").strip()
+                t0 = re.sub(r"<.*", "", t0).split("::")[-1]
+                if t0 == tyname and f not in hits:
+                    hits.append(f)
+            cache[k] = hits[0] if len(hits) == 1 else None
+        return cache[k]
+
     def call_trait_method(self, trait, method, args, desc=None):
         """Dynamic dispatch on the runtime value of the receiver (args[0])."""
         recv = args[0] if args else None
         tn = self.type_name_of(recv)
         if tn is not None:
             f = self.idx.find_method(tn, trait, (method,))
+            if f:
+                return self.run_fn(f, args)
+            # types that are not declared in the source (macro-generated helper structs): dispatch on the printed
+            # type of the method's first parameter
+            f = self._method_by_receiver_type(tn[-1], method, len(args))
             if f:
                 return self.run_fn(f, args)
         if trait in ("FnOnce", "FnMut", "Fn"):
